@@ -113,7 +113,15 @@ def gen_case(rng: random.Random, tier: str) -> dict:
                 "non_zo": rng.random() < 0.25,
             }
         )
-    return {"world": {"files": files, "dirent": rng.choice(["sorted", "reversed", "shuffled"])}, "steps": steps, "day0": core.EPOCH_DAY + rng.randrange(0, 300)}
+    world = {"files": files, "dirent": rng.choice(["sorted", "reversed", "shuffled"])}
+    day0 = core.EPOCH_DAY + rng.randrange(0, 300)
+    # where the notes directory lives and what else lives in it: hidden components in its own
+    # path, a space, a hidden sub-directory with pages that link like all the others
+    world["home"] = rng.choice(["org", "org", "org", "org", ".local/share/zorg", ".notes/org", "my notes/org", "org.d/v1.2"])
+    if rng.random() < 0.15:
+        n = rng.choice(link_names)
+        files[".archive/old.zo"] = f"# Archived [[{n}]]\n\n- 230101#1{rng.randrange(10)} kept " + " ".join([f"[[{n}]]"] + _link_words(rng, link_names)) + "\n"
+    return {"world": world, "steps": steps, "day0": day0}
 
 
 def describe(case: dict) -> Any:
